@@ -317,6 +317,17 @@ func (a *advWorld) craft(class string, n int) (wire.Msg, map[wallet.BackendID]wi
 		case "vfund2": // a second virtual channel 1 / 1
 			hm.Sit = "vfund"
 			return a.hubW.proposal(hm, side, true, a.vparams2, a.hubW.vState(hm, a.vparams2, 1, 1, 0, false, "-")), sender
+		case "vchan-update": // the funded virtual channel 2 / 2 itself: its next state, the sender pays the other end point 1
+			ss := a.hubW.vState(hm, a.vparams, 2, 2, 0, false, "-")
+			st := ss.State.Clone()
+			st.Version = 1
+			me, signer := 0, p
+			if side == "B" {
+				me, signer = 1, x
+			}
+			st.Balances[0][me] = big.NewInt(1)
+			st.Balances[0][1-me] = big.NewInt(3)
+			return upd(st, channel.Index(me), sign(signer.Acc, st)), sender
 		case "vfund2z": // a second virtual channel 2 / 0: X owns nothing in it
 			hm.Sit = "vfund"
 			return a.hubW.proposal(hm, side, true, a.vparams2, a.hubW.vState(hm, a.vparams2, 2, 0, 0, false, "-")), sender
@@ -638,7 +649,7 @@ func runAdversaryCase(t *testing.T, c *advCase, proto bool, idx int) (what, clas
 			if c.Point != "handling" {
 				for u := h.TakeUpdate(); u != nil; u = h.TakeUpdate() {
 					r := u.Resp
-					if c.Net == "down" || c.Net == "stall" {
+					if c.Net == "down" || c.Net == "stall" || strings.Contains(cl, "vchan-update") {
 						// with the network gone the user ACCEPTS what it is shown: the response cannot be sent, the update
 						// has to be rolled back and the channel must stay usable
 						go func() { _ = r.Accept(userCtx()) }()
